@@ -100,11 +100,29 @@ Lemma tread_le : forall n s, lenN (fst (tread n s)) <= n.
 Proof. intros. destruct (tread_spec s n) as [-> _]. rewrite lenN_takeN. lia. Qed.
 
 (* ---------------------------------------------------------------- offsets of a member *)
+Lemma pax_apply1_type : forall h kv, h_type (pax_apply1 h kv) = h_type h.
+Proof.
+  intros h [k v]. unfold pax_apply1. destruct (bytes_eqb k K_PATH); [reflexivity|].
+  destruct (bytes_eqb k K_LINKPATH); [reflexivity|]. destruct (bytes_eqb k K_SIZE); reflexivity.
+Qed.
+Lemma pax_apply_type : forall recs h, h_type (pax_apply recs h) = h_type h.
+Proof.
+  unfold pax_apply. induction recs as [|kv recs IH]; intros h; [reflexivity|].
+  cbn [fold_left]. rewrite IH. apply pax_apply1_type.
+Qed.
+Lemma pax_apply_size_nokey : forall recs h, pax_has K_SIZE recs = false -> h_size (pax_apply recs h) = h_size h.
+Proof.
+  unfold pax_apply, pax_has. induction recs as [|[k v] recs IH]; intros h H; [reflexivity|].
+  cbn [existsb fst] in H. apply orb_false_iff in H. destruct H as [Hk Hr].
+  cbn [fold_left]. rewrite (IH _ Hr). unfold pax_apply1. destruct (bytes_eqb k K_PATH); [reflexivity|].
+  destruct (bytes_eqb k K_LINKPATH); [reflexivity|]. rewrite Hk. reflexivity.
+Qed.
+
 Lemma fromtar_ok_inv : forall St rd fuel r h od no r',
   fromtar St rd fuel r = (FOk h od no, r') ->
   od = pos r' /\ no = od + (if has_data (h_type h) then block (h_size h) else 0).
 Proof.
-  intros St rd. induction fuel as [|f IH]; intros r h od no r' H; simpl in H; [discriminate|].
+  intros St rd. induction fuel as [|f IH]; intros r h od no r' H; cbn [fromtar] in H; [discriminate|].
   destruct (read St rd 512 r) as [buf r1].
   destruct (frombuf buf) as [| | | | |h0]; try discriminate.
   destruct ((h_type h0 =? T_GNULONGNAME) || (h_type h0 =? T_GNULONGLINK)).
@@ -112,7 +130,17 @@ Proof.
     destruct (fromtar St rd f r2) as [x r3] eqn:E.
     destruct x as [e| | |h' od' no'|]; try destruct e; try discriminate.
     apply IH in E. injection H as <- <- <- <-. destruct (h_type h0 =? T_GNULONGNAME); simpl; exact E.
-  - destruct (is_pax_type (h_type h0)); [discriminate|]. injection H as <- <- <- <-. split; reflexivity.
+  - destruct (is_pax_type (h_type h0)).
+    + destruct (h_type h0 =? 103); [discriminate|].
+      destruct (read St rd (block (h_size h0)) r1) as [pbuf r2].
+      destruct (parse_pax (S (length pbuf)) pbuf 0 []) as [recs|]; [|discriminate].
+      destruct (fromtar St rd f r2) as [x r3] eqn:E.
+      destruct x as [e| | |h' od' no'|]; try destruct e; try discriminate.
+      destruct (pax_sparse recs); [discriminate|]. apply IH in E. destruct E as [E1 E2].
+      injection H as <- <- <- <-. split; [exact E1|].
+      destruct (pax_has K_SIZE recs) eqn:Hs; [reflexivity|].
+      rewrite pax_apply_type, (pax_apply_size_nokey _ _ Hs). exact E2.
+    + injection H as <- <- <- <-. split; reflexivity.
 Qed.
 Lemma next_mem_inv : forall St rd sk legacy fuel off r h od no r1,
   next St rd sk legacy fuel off r = (NxMem h od no, r1) ->
